@@ -43,10 +43,12 @@ def incon(why):
 
 def model_check(ctx):
     cfgs = ["MC_quick.cfg", "MC_live.cfg"] if ctx.tier == "quick" else ["MC_quick.cfg", "MC_thorough.cfg", "MC_live3.cfg"]
-    cfgs += ["MC_do3.cfg"] if ctx.tier == "quick" else ["MC_do.cfg", "MC_do_live.cfg"]
+    cfgs += ["MC_do3.cfg", "MC_multi_quick.cfg"] if ctx.tier == "quick" else \
+            ["MC_do.cfg", "MC_do_live.cfg", "MC_multi_thorough.cfg", "MC_multi_live.cfg"]
     for cfg in cfgs:
-        r = ctx.tlc("quorumread", "QuorumDo" if cfg.startswith("MC_do") else "QuorumRead", cfg=cfg, timeout=3000, workers=WORKERS,
-                    coverage=(ctx.tier == "thorough" and cfg in ("MC_quick.cfg", "MC_do.cfg")))
+        module = "QuorumDo" if cfg.startswith("MC_do") else "MCQuorumMulti" if cfg.startswith("MC_multi") else "QuorumRead"
+        r = ctx.tlc("quorumread", module, cfg=cfg, timeout=3000, workers=WORKERS,
+                    coverage=(ctx.tier == "thorough" and cfg in ("MC_quick.cfg", "MC_do.cfg", "MC_multi_thorough.cfg")))
         ctx.require_tlc_ok(r, cfg)
         if r.distinct < 1000:
             incon("%s explored only %d states" % (cfg, r.distinct))
@@ -62,9 +64,8 @@ def gen_replay(ctx):
     """spec -> code"""
     runs = []
     if ctx.tier == "quick":
-        runs.append(dict(cfg="Gen_n2.cfg"))
-        runs.append(dict(cfg="Gen_sim4.cfg", simulate="num=700", depth=60))
-        runs.append(dict(cfg="Gen_sim4q.cfg", simulate="num=700", depth=60))
+        runs.append(dict(cfg="Gen_n3core.cfg"))
+        runs.append(dict(cfg="Gen_sim4q.cfg", simulate="num=600", depth=60))
     else:
         runs.append(dict(cfg="Gen_n3.cfg"))
         runs.append(dict(cfg="Gen_sim4.cfg", simulate="num=2000", depth=60))
@@ -149,13 +150,16 @@ def describe(t, line):
     prev = next((x for x in reversed(steps[:idx]) if x["a"] != "obs"), None)
     after = "start" if prev is None else (prev["a"] + ("(%s)" % prev["o"] if prev["a"] == "finish" else ""))
     c = t["cfg"]
+    pre = ""
     if "minimize" in c:
         cs = "mode=%s minimize=%s" % (c["mode"], str(c["minimize"]).lower())
+    elif "size" in c:
+        pre, cs = "multi: ", "%d sets" % len(c["size"])
     else:
-        cs = "legacy Do mode=%s delay=%s" % (c["mode"], str(c["delay"]).lower())
+        pre, cs = "Do: ", "mode=%s delay=%s" % (c["mode"], str(c["delay"]).lower())
     if s["a"] == "obs":
-        return "trace rejected: observation after %s is not a behaviour of the specification: %s" % (after, cs), s
-    return "trace rejected: environment step %s not enabled in the specification: %s" % (s["a"], cs), s
+        return pre + "trace rejected: observation after %s is not a behaviour of the specification: %s" % (after, cs), s
+    return pre + "trace rejected: environment step %s not enabled in the specification: %s" % (s["a"], cs), s
 
 
 def record_validate(ctx):
@@ -212,32 +216,47 @@ def report(ctx, confirmed, nrej, module, label):
                           "note": "rejected at line %d of %d; %d traces rejected in this run" % (line, len(t["steps"]), nrej)}, label)
 
 
+def sched_key(t):
+    return json.dumps([t["cfg"], [x for x in t["steps"] if x["a"] != "obs"]], sort_keys=True)
+
+
+def record_validate_simple(ctx, test, module, label, env):
+    """code -> spec for the legacy executor / the multi-set variant: record, validate; a rejection counts only if the same
+    schedule is rejected again when everything is recorded a second time."""
+    rejected = None
+    for attempt in (1, 2):
+        tp = ctx.path("%s_traces%d.ndjson" % (label, attempt))
+        env["VERIF_TRACE_OUT"] = tp
+        res = ctx.run_harness("c11", "^%s$" % test, env=env, timeout=3000)
+        nrec = res.get("cases", 0)
+        if nrec == 0:
+            incon("no %s traces recorded" % label)
+        rej = validate(ctx, tp, "%s%d" % (label, attempt), module=module)
+        if attempt == 1:
+            res["cases"] = nrec - len(rej)
+            ctx.absorb(res, "record " + label)
+            if not rej:
+                return
+            rejected = {sched_key(t) for t in rej}
+        else:
+            confirmed = [t for t in rej if sched_key(t) in rejected]
+            if not confirmed:
+                incon("%d %s traces were rejected but not when recorded again" % (len(rejected), label))
+            report(ctx, confirmed, len(confirmed), module, "record/validate " + label)
+
+
 def record_validate_do(ctx):
-    """code -> spec, legacy executor ReplicationSet.Do (deterministic given the schedule, so a rejection needs no re-recording
-    triage beyond one repetition of the whole recording)"""
     env = {"VERIF_NS": "[1,2,3]" if ctx.tier == "quick" else "[1,2,3,4]", "VERIF_MAXZ": 3}
     if os.environ.get("C11_SELFTEST") == "corrupt_trace_do":
         env["VERIF_CORRUPT_TRACE"] = "5"
-    rejected = None
-    for attempt in (1, 2):
-        tp = ctx.path("do_traces%d.ndjson" % attempt)
-        env["VERIF_TRACE_OUT"] = tp
-        res = ctx.run_harness("c11", "^TestRecordDo$", env=env, timeout=3000)
-        nrec = res.get("cases", 0)
-        if nrec == 0:
-            incon("no Do traces recorded")
-        rej = validate(ctx, tp, "do%d" % attempt, module="QuorumDoTrace")
-        if attempt == 1:
-            res["cases"] = nrec - len(rej)
-            ctx.absorb(res, "record Do")
-            if not rej:
-                return
-            rejected = {json.dumps([t["cfg"], [s for s in t["steps"] if s["a"] != "obs"]], sort_keys=True) for t in rej}
-        else:
-            confirmed = [t for t in rej if json.dumps([t["cfg"], [s for s in t["steps"] if s["a"] != "obs"]], sort_keys=True) in rejected]
-            if not confirmed:
-                incon("%d Do traces were rejected but not when recorded again" % len(rejected))
-            report(ctx, confirmed, len(confirmed), "QuorumDoTrace", "record/validate Do")
+    record_validate_simple(ctx, "TestRecordDo", "QuorumDoTrace", "Do", env)
+
+
+def record_validate_multi(ctx):
+    env = {}
+    if os.environ.get("C11_SELFTEST") == "corrupt_trace_multi":
+        env["VERIF_CORRUPT_TRACE"] = "5"
+    record_validate_simple(ctx, "TestRecordMulti", "QuorumMultiTrace", "multi", env)
 
 
 def run(ctx):
@@ -256,4 +275,5 @@ def run(ctx):
     gen_replay(ctx)
     record_validate(ctx)
     record_validate_do(ctx)
+    record_validate_multi(ctx)
     return "model_checking"
